@@ -10,6 +10,7 @@ import ErbiumModel.Judge.DnsWire
 import ErbiumModel.Judge.C03
 import ErbiumModel.Judge.C18
 import ErbiumModel.Judge.C17
+import ErbiumModel.Judge.C02
 /-! Line-protocol driver. stdin: `<suite> <input tokens> => <implementation observation>`;
     stdout: `<correspondence verdict> | <oracle verdict>` per line. -/
 open Erbium Util
@@ -33,6 +34,7 @@ def judge (suite : String) (inp obs : List String) : Verdict :=
   | "inreply" => Judge.C03.judge inp obs
   | "leasedb" => Judge.C18.judge inp obs
   | "ra" => Judge.C17.judge inp obs
+  | "dhcpcfg" => Judge.C02.judge inp obs
   | _ => badInput ("unknown-suite:" ++ suite)
 
 def judgeLine (line : String) : String :=
